@@ -77,6 +77,9 @@ CHECKS["C16"] = dict(level="model_checking",
   note="Known finding KF12 (package directory = module root: nothing is written) is the named as-built clause RootAsBuilt of Trace_Pipeline.tla, used only for that layout and only when the ideal specification rejects the run.",
   design="7 C16, 3.9")
 
+CHECKS["C12"] = src("Family F_unsup: a small control alphabet plus exactly one construct outside the supported subset at any statement position (labelled break/continue, goto+label, select, defer, fallthrough out of a yielding case, yield in an if initialiser, range over pointer-to-array / func / type-parameter slice) and, as negative controls, the same constructs inside a closure nested in the generator without a yield inside. CoSource gives each construct its Go meaning by desugaring (labels, defers, live array reads are modelled), validated natively. Outcome per program: the tool fails (diagnostic panic, non-zero exit, unbuildable output) = rejected, fine; accepted = the compiled generator must equal the specification, else violation; a negative control that is rejected is a violation; plus a generator with the wrong result signature.",
+  "Any failure of the tool counts as rejection; the property forbids output that builds and behaves differently. Bounded: size 2 (quick) / 3 (thorough).", "7 C12")
+
 NOT_YET = {}
 
 def main():
